@@ -35,7 +35,7 @@ def generate(seed, tier="quick"):
     rng = sub(seed, "program")
     prof = V.draw_profile(sub(seed, "profile"))
     prof.special = [s for s in prof.special if s != "norepr"]
-    prog = W.gen_program(rng, prof, {"prev": PREV, "n_sites": (1, 5), "n_tests": (1, 3), "hand": 0.5})
+    prog = W.gen_program(rng, prof, {"prev": PREV, "n_sites": (1, 5), "n_tests": (1, 3), "hand": 0.5, "idle": 0.2})
     frng = sub(seed, "flags")
     approved = list(CATS) if frng.random() < 0.5 else [c for c in CATS if frng.random() < 0.5]
     driver = "plugin" if sub(seed, "driver").random() < 0.10 else "inline"
@@ -97,7 +97,10 @@ def classify(prog, changed):
             site = [st for f in prog["files"] for s2, st in f["sites"].items() if s2 == sid][0]
             has_1tuple = any(isinstance(n, ast.Tuple) and len(n.elts) == 1 for n in ast.walk(ta))
             same_tokens = "".join(a.split()).replace(",]", "]").replace(",)", ")").replace(",}", "}") == "".join(b.split()).replace(",]", "]").replace(",)", ")").replace(",}", "}")
-            if site["op"] in ("in", "item") and has_1tuple and same_tokens:
+            has_exp_float = any(isinstance(n, ast.Constant) and isinstance(n.value, float) and "e+" in repr(n.value) for n in ast.walk(ta))
+            # the element is reported as update on every run, so the next run regenerates it: any syntax-tree preserving
+            # difference (layout, merged implicit string concatenation) of such an element belongs to this finding
+            if site["op"] in ("in", "item") and (has_1tuple or has_exp_float):
                 kinds.add("in-element-with-1-tuple-relaid-out-by-next-update")
                 continue
             return "second-run-changes-file"
